@@ -12,7 +12,7 @@ use serde_json::{json, Value};
 use std::str::FromStr;
 use std::sync::atomic::Ordering;
 
-pub const COUNTERS: &[&str] = &["states_in_check", "states_double_check", "states_with_pinned_man", "pinned_men", "states_after_null_move", "knight_checks", "pawn_checks", "slider_checks", "fen_round_trips"];
+pub const COUNTERS: &[&str] = &["states_in_check", "states_double_check", "states_with_pinned_man", "pinned_men", "states_after_null_move", "knight_checks", "pawn_checks", "slider_checks", "fen_round_trips", "in_place_arrivals_compared"];
 
 pub struct C03;
 
@@ -22,6 +22,27 @@ impl PosOracle for C03 {
     }
     fn max_nulls(&self) -> u8 {
         2
+    }
+    /// The in-place entry point must arrive at a board equal (==, so checkers, pinned, hash
+    /// included) to the one built from scratch as well.
+    fn transition(&self, run: &Run, pre: &St, a: &Act, post: &St) -> Judged {
+        if let Act::Mv(m) = a {
+            let src = pre.lib;
+            let lm = lmove(*m);
+            let out = guard::lib(move || {
+                let mut out = Board::default();
+                src.make_move(lm, &mut out);
+                out
+            })
+            .map_err(|e| Finding::new("panic", "make_move panicked", e))?;
+            let fs = guard::lib(|| from_scratch(&post.key)).map_err(|e| Finding::new("panic", "from-scratch construction panicked", e))?.map_err(|e| Finding::new("from-scratch", "in-place make_move", format!("builder rejects the position: {e}")))?;
+            if out != fs {
+                let what = if out.checkers() != fs.checkers() { "checkers" } else if out.pinned() != fs.pinned() { "pinned" } else { "another field" };
+                return Err(Finding::new("from-scratch", format!("reached by the in-place make_move: {what}"), format!("board after make_move({m}) differs under == from the same position built through the builder: {:?} vs {:?}", out, fs)));
+            }
+            run.add("in_place_arrivals_compared", 1);
+        }
+        Ok(())
     }
     fn state(&self, run: &Run, s: &St) -> Judged {
         let p = &s.key;
